@@ -26,3 +26,4 @@ META = dict(
          "in the Go runtime or in cgo is outside the model.",
     technique="Lean 4 proof (causality from scan structure) + history differential correspondence against a history-free model",
 )
+READY = True
